@@ -182,26 +182,55 @@ package migrate
 //@   loop 1 invariant (forall i int :: 0 <= i && i < loopk && !old(GvcIsCk(all[i])) ==> 0 <= old(GvcCntM(all, i)) && old(GvcCntM(all, i)) < len(files))
 //@   loop 1 invariant (forall i int :: 0 <= i && i < loopk && !old(GvcIsCk(all[i])) ==> files[old(GvcCntM(all, i))] == old[File](all[i]))
 
+//@ ghost var GvcFiles []File
+//@ ghost var GvcRevs []*Revision
+//@ ghost var GvcCleanErr error
+//@ spec func gvcLast() *Revision { return GvcRevs[len(GvcRevs)-1] }
+//@ spec func gvcHasRev(v string) bool { return (exists q int :: 0 <= q && q < len(GvcRevs) && GvcRevs[q].Version == v) }
+//@ spec func gvcNotClean(err error) bool { return errors.As(err, new(*NotCleanError)) }
+//@ spec func gvcForeignErr(err error) bool { return !GvcIs[*HistoryNonLinearError](err) && !GvcIs[*MissingMigrationError](err) }
+
 //@ extern func (d Dir) Files() (fs []File, err error)
+//@   effect if err == nil { GvcFiles = fs }
+//@   ensures gvcForeignErr(err)
+//@   ensures err == nil ==> GvcFresh(fs) || len(fs) == 0
 //@   ensures err == nil ==> (forall i int :: 0 <= i && i < len(fs) ==> fs[i] != nil)
 //@   ensures err == nil ==> (forall i int, j int :: 0 <= i && i < j && j < len(fs) ==> fs[i].Version() < fs[j].Version())
 //@ extern func (rw RevisionReadWriter) ReadRevisions(ctx context.Context) (rs []*Revision, err error)
+//@   effect if err == nil { GvcRevs = rs }
+//@   ensures gvcForeignErr(err)
 //@   ensures err == nil ==> (forall i int :: 0 <= i && i < len(rs) ==> rs[i] != nil)
 //@   ensures err == nil ==> (forall i int, j int :: 0 <= i && i < j && j < len(rs) ==> rs[i].Version < rs[j].Version)
 //@ extern func (rw RevisionReadWriter) Ident() (t *TableIdent)
 //@ extern func (c CleanChecker) CheckClean(ctx context.Context, t *TableIdent) (err error)
+//@   effect GvcCleanErr = err
+//@   ensures gvcForeignErr(err)
 
 //@ func (e *Executor) ValidateDir(ctx context.Context) (err error)
 //@   trusted
+//@   ensures gvcForeignErr(err)
 
 //@ func FilesFromLastCheckpoint(dir Dir) (fs []File, err error)
 //@   trusted
+//@   ensures gvcForeignErr(err)
 //@   ensures err == nil ==> (forall i int :: 0 <= i && i < len(fs) ==> fs[i] != nil)
 
 //@ func (e *Executor) Pending(ctx context.Context) (fs []File, err error)
 //@   requires e != nil && e.dir != nil && e.rrw != nil && e.log != nil && e.drv != nil
-//@   modifies struct(Revision), GvcStore, GvcWrites
+//@   modifies struct(Revision), GvcStore, GvcWrites, GvcFiles, GvcRevs, GvcCleanErr
 //@   ensures nothing-pending-is-an-error: err == nil ==> len(fs) > 0
 //@   ensures error-returns-no-files: err != nil ==> len(fs) == 0
-//@   loop 1 localwrites
-//@   loop 1 invariant skipped == nil || GvcFresh(skipped)
+//@   ensures gate: len(GvcRevs) == 0 && gvcNotClean(GvcCleanErr) && !e.allowDirty && e.baselineVer == "" && GvcWrites != old(GvcWrites) ==> false
+//@   ensures only-newer: err == nil && len(GvcRevs) > 0 && gvcLast().Applied == gvcLast().Total && e.order == ExecOrderLinear ==>
+//@           (forall p int :: 0 <= p && p < len(fs) ==> fs[p] != nil && !GvcIsCk(fs[p]) && fs[p].Version() > gvcLast().Version)
+//@   ensures all-newer: err == nil && len(GvcRevs) > 0 && gvcLast().Applied == gvcLast().Total && e.order == ExecOrderLinear ==>
+//@           (forall i int :: 0 <= i && i < len(GvcFiles) && !GvcIsCk(GvcFiles[i]) && GvcFiles[i].Version() > gvcLast().Version ==>
+//@              (exists p int :: 0 <= p && p < len(fs) && fs[p] == GvcFiles[i]))
+//@   ensures in-order: err == nil && len(GvcRevs) > 0 && gvcLast().Applied == gvcLast().Total && e.order == ExecOrderLinear ==>
+//@           (forall p int, q int :: 0 <= p && p < q && q < len(fs) ==> fs[p].Version() < fs[q].Version())
+//@   ensures non-linear-error: GvcIs[*HistoryNonLinearError](err) ==> e.order == ExecOrderLinear && len(err.(*HistoryNonLinearError).OutOfOrder) > 0 &&
+//@           (forall p int :: 0 <= p && p < len(err.(*HistoryNonLinearError).OutOfOrder) ==> !gvcHasRev(err.(*HistoryNonLinearError).OutOfOrder[p].Version()))
+//@   loop 1 freshwrites
+//@   loop 1 invariant skipped == nil || GvcLoopFresh(skipped)
+//@   loop 1 invariant (forall p int :: 0 <= p && p < len(skipped) ==> skipped[p] != nil)
+//@   loop 1 invariant (forall p int :: 0 <= p && p < len(skipped) ==> !gvcHasRev(skipped[p].Version()))
